@@ -61,7 +61,16 @@ def dead_status_false(e):
 
 
 def check(run, ctx):
-    run.each(ctx, [r1, r2, r3, r4, r5, r6])
+    run.each(ctx, [r1, r2, r3, r4, r5, r6, r7])
+
+
+def r7(run, ctx):
+    from rules import c04
+    run.share(ctx, c04.r2, 'R2', 'R7', 'a worker of an active watcher leaves the table only '
+              'when its termination completed or it is dead (shared with C04 R2, the sites of '
+              'the convergence paths): an untracked live worker is not counted, so the check '
+              'spawns a replacement and the live count overshoots numprocesses for good',
+              keep=lambda key: 'Watcher.spawn_process' not in key)
 
 
 def r1(run, ctx):
